@@ -38,21 +38,22 @@ Print Assumptions C01_group_layer.
 
 (* ---- gradient correctness of components, under their documented non-singularity guards ----------------------- *)
 Theorem C01_grad_correct_distance : forall cell pbc co e g1 g2 (s : SYS),
-  grp_ok s g1 -> grp_ok s g2 -> plain pbc cell ->
-  com_of s g2 <> com_of s g1 ->                                   (* centres do not coincide *)
+  grp_ok s g1 -> grp_ok s g2 ->
+  image_ok pbc cell (com_of s g1) (com_of s g2) ->                (* no cell / forceNoPBC, or no component on a cut of the cell *)
+  v3norm2 Rops (pdist Rops pbc cell (com_of s g1) (com_of s g2)) <> 0 ->       (* centres (images) do not coincide *)
   cvc_grad_correct cell (mkCvc co e (KDistance pbc) [g1; g2]) s.
 Proof. exact cvc_grad_correct_distance. Qed.
 Print Assumptions C01_grad_correct_distance.
 
 Theorem C01_grad_correct_distanceZ : forall cell pbc co e ax gm gr (s : SYS),
-  grp_ok s gm -> grp_ok s gr -> plain pbc cell ->
+  grp_ok s gm -> grp_ok s gr -> image_ok pbc cell (com_of s gr) (com_of s gm) ->
   cvc_grad_correct cell (mkCvc co e (KDistanceZ pbc ax) [gm; gr]) s.
 Proof. exact cvc_grad_correct_distanceZ. Qed.
 Print Assumptions C01_grad_correct_distanceZ.
 
 Theorem C01_grad_correct_distanceXY : forall cell pbc co e ax gm gr (s : SYS),
-  grp_ok s gm -> grp_ok s gr -> plain pbc cell -> v3norm2 Rops ax = 1 ->
-  v3norm2 Rops (vperp (v3sub Rops (com_of s gm) (com_of s gr)) ax) <> 0 ->     (* main is not on the axis through ref *)
+  grp_ok s gm -> grp_ok s gr -> image_ok pbc cell (com_of s gr) (com_of s gm) -> v3norm2 Rops ax = 1 ->
+  v3norm2 Rops (vperp (pdist Rops pbc cell (com_of s gr) (com_of s gm)) ax) <> 0 ->     (* main is not on the axis through ref *)
   cvc_grad_correct cell (mkCvc co e (KDistanceXY pbc ax) [gm; gr]) s.
 Proof. exact cvc_grad_correct_distanceXY. Qed.
 Print Assumptions C01_grad_correct_distanceXY.
@@ -152,3 +153,6 @@ Example C01_example_guards :
   (forall v c, In v (cf_vars ex_cf) -> In c (cv_cvcs v) -> cvc_guard (cf_cell ex_cf) c ex_sys) /\
   (forall b, In b (cf_biases ex_cf) -> bias_guard b (cf_vars ex_cf) (var_values Rops PI ex_cf ex_sys)).
 Proof. exact ex_guards. Qed.
+(* the periodic-cell case of image_ok is inhabited *)
+Example C01_example_cell : image_ok true (Some (8, 8, 8)) (0, 0, 0) (5, 1, 1) /\ ~ plain true (Some (8, 8, 8)).
+Proof. exact ex_image_cell. Qed.
